@@ -10,4 +10,5 @@ CONSTANTS
   Modes = {"none", "nowait", "wait"}
   Modes2 = {"none"}
   NeverExits = {}
-PROPERTIES ResultEventually WaitReturns ShutdownReturns Termination
+\* Termination implies the other three (given ResultConsistent); they are checked one by one in MC_Executor_live_1.cfg
+PROPERTIES Termination
